@@ -448,6 +448,20 @@ def run(ctx, scratch):
         pairs = random_order(rng, n)
         p = rng.choice(['inc', 'tied', 'size', 'depth', 'dyadic', 'randsteps', 'randsteps', 'neg_depth', 'neg_b_randsteps'])
         dends.append(('rnd_%s' % p, n, make_dendrogram(n, pairs, p, rng), False))
+    # ---- dendrograms over aggregated leaves (what cut_straight / cut_balanced(return_dendrogram=True) and aggregate_dendrogram
+    #      return: leaf i stands for ws[i] original nodes, and the size column counts original nodes, not leaves): cutting a cut.
+    #      Cluster sizes, the order of the labels and the sizes of a returned dendrogram are about the LEAVES of the dendrogram given
+    for _ in range(30 if quick else 300):
+        n = rng.randint(3, 12)
+        pairs = random_order(rng, n)
+        rows = make_dendrogram(n, pairs, rng.choice(['inc', 'tied', 'size', 'randsteps']), rng)
+        ws = [rng.randint(1, 5) for _ in range(n)]
+        size = {i: ws[i] for i in range(n)}
+        rows2 = []
+        for t, (a, b, h, _) in enumerate(rows):
+            size[n + t] = size[a] + size[b]
+            rows2.append((a, b, h, size[n + t]))
+        dends.append(('aggregated_leaves', n, rows2, False))
     # ---- outside the quantifier (a child merge above its parent): correspondence only for the claims on heights
     for _ in range(20 if quick else 200):
         n = rng.randint(3, 8)
@@ -455,7 +469,12 @@ def run(ctx, scratch):
 
     plan = []      # per dendrogram: (fam, n, rows, calls)
     for (fam, n, rows, full) in dends:
-        plan.append((fam, n, rows, calls_for(n, rows, rng, full)))
+        calls = calls_for(n, rows, rng, full)
+        if fam == 'aggregated_leaves':
+            # only the cuts: aggregate_dendrogram copies the size column of its input while it counts leaves, so on such input its
+            # own two outputs are about different things (not judged; the cuts are consistently about leaves)
+            calls = [c_ for c_ in calls if c_['fn'] != 'aggregate']
+        plan.append((fam, n, rows, calls))
 
     # ---- implementation
     impl_out = []
